@@ -75,6 +75,16 @@ pub struct Report {
 }
 
 impl Report {
+    /// A command that was still busy at the wall cap (slow, not hung) is neither a violation nor a
+    /// harness error: the scenario is counted as too slow and what it established so far stands.
+    pub fn normalize(&mut self) {
+        let n = self.harness_errors.len();
+        self.harness_errors.retain(|e| !e.contains("WallCapBusy"));
+        if self.harness_errors.len() < n {
+            self.fire("scenario_too_slow_for_the_wall_cap(not judged further)", 1);
+        }
+    }
+
     pub fn fire(&mut self, kind: &str, n: u64) {
         if n > 0 {
             *self.fired.entry(kind.to_string()).or_insert(0) += n;
@@ -229,6 +239,7 @@ pub fn worker(prop: &dyn Prop, tier: Tier, seed: u64, runs: &[u64], pool: usize,
         let spec = prop.generate(ss, tier);
         let t0 = Instant::now();
         let mut report = prop.exec(&spec, &env);
+        report.normalize();
         let mut line = RunLine { run: i, subseed: ss, pool, wall_ms: 0, report: Report::default(), replay: None, shrink_steps: 0, replay_verified: None };
         // a new (unlisted) violation: minimise and write the replay file
         let new_v = report.violations.iter().find(|v| known_match(&known, prop.id(), &v.fingerprint).is_none()).cloned();
@@ -293,7 +304,8 @@ pub fn minimise(prop: &dyn Prop, env: &Env, mut spec: Value, mut report: Report,
             if Instant::now() > deadline {
                 break 'outer;
             }
-            let r = prop.exec(&cand, env);
+            let mut r = prop.exec(&cand, env);
+            r.normalize();
             if r.harness_errors.is_empty() && r.violations.iter().any(|v| v.fingerprint == fp) {
                 spec = cand;
                 report = r;
